@@ -22,7 +22,7 @@ from vlib.core import Leg, Result, exc_failure, VERIF
 ID = 'C20'
 RULE = ('memo oracle: the results of 40 probes (parse shape, split, tokenize, every filter) are computed once in a fresh interpreter. history leg (model-based): drawn '
         'operation sequences (<=25 steps) of {call on drawn input/options; call with an invalid option (raises); call on over-deep input under a lowered recursion '
-        'limit (raises); parsestream consumed for j statements then closed / dropped / kept; tokenizer generator abandoned; lexer reconfiguration (clear, '
+        'limit (raises); call on input nested 60/120/300 levels at the normal limit; parsestream consumed for j statements then closed / dropped / kept; tokenizer generator abandoned; lexer reconfiguration (clear, '
         'set_SQL_REGEX on a slice, add_keywords) which switches the model to "reconfigured" until default_initialization(); get_default_instance identity}; after every '
         'step in default mode a drawn probe must equal the memo, and at the end of the history every drawn call made in default mode is repeated and must give the result it gave the first time. schedule leg: the default lexer instance is reset, k in [2,4] threads make the first call, a '
         'sys.settrace line tracer parks every thread before each line of lexer.py, a Hypothesis-drawn schedule grants single steps, Lexer._lock is replaced by a '
@@ -59,6 +59,7 @@ op = st.one_of(
     st.tuples(st.just('call'), st.sampled_from(['parse', 'split', 'format']), _text, O.valid_options()),
     st.tuples(st.just('invalid'), st.integers(0, 10 ** 6), _text),
     st.tuples(st.just('deep'), st.sampled_from(['paren', 'case', 'ops', 'func']), st.sampled_from(['parse', 'split', 'format'])),
+    st.tuples(st.just('moderate'), st.sampled_from(['paren', 'case', 'ops', 'func']), st.sampled_from(['parse', 'split', 'format']), st.sampled_from([60, 120, 300])),
     st.tuples(st.just('stream'), st.sampled_from(["select 1; select 2; select 3; select 4", "select (1; select 2", "a;b;c;d;e"]), st.integers(0, 3),
               st.sampled_from(['close', 'drop', 'keep'])),
     st.tuples(st.just('tokgen'), _text, st.integers(0, 5)),
@@ -139,6 +140,18 @@ def check_history(case):
                     sys.setrecursionlimit(old)
                     if gc_was:
                         gc.enable()
+            elif kind == 'moderate':
+                # nesting that the interpreter's normal recursion limit accepts (or that is rejected with SQLParseError)
+                text = _deep_text(o[1], o[3])
+                try:
+                    if o[2] == 'parse':
+                        sqlparse.parse(text)
+                    elif o[2] == 'split':
+                        sqlparse.split(text)
+                    else:
+                        sqlparse.format(text, reindent=True)
+                except SQLParseError:
+                    raised += 1
             elif kind == 'stream':
                 g = sqlparse.parsestream(io.StringIO(o[1]))
                 try:
